@@ -217,6 +217,21 @@ func ruleArith(c *Ctx, prefix string) {
 				}
 				kind := map[token.Token]string{token.ADD: "add", token.SUB: "sub", token.MUL: "mul"}[bo.Op]
 				r := get(in, kind)
+				if bo.Op == token.ADD {
+					// combining limbs: (hi << s) + (lo >> r) is a 128-bit shift split over two words, so s + r = 64
+					l, okl := ex.Resolve(st, bo.X).(*ssa.BinOp)
+					rr, okr := ex.Resolve(st, bo.Y).(*ssa.BinOp)
+					if okl && okr && l.Op == token.SHR && rr.Op == token.SHL {
+						l, rr = rr, l
+					}
+					if okl && okr && l.Op == token.SHL && rr.Op == token.SHR {
+						sc, rc := ex.Canon(st, l.Y).S, ex.Canon(st, rr.Y).S
+						if sum, ok := linSum(parseLin(sc), parseLin(rc)); !ok || sum != 64 {
+							r.bad = fmt.Sprintf("the two limbs are combined with shift counts %s and %s, which do not add up to 64: the halves of the 128-bit distance are misaligned (distinct blocks collapse onto one index)", shortName(sc), shortName(rc))
+							return
+						}
+					}
+				}
 				ek := ""
 				if name == "Offset" && bo.Op == token.SUB {
 					ek = fn.String() + " sub hi-lo"
